@@ -4,7 +4,7 @@
 // contracts that CBMC proves complete on the real SSE2 and portable code (h_group, h_bitmask).
 global size_of usize == 8;
 
-#[derive(Clone, Copy)]
+#[derive(Clone, Copy, PartialEq, Eq, Structural)]
 pub struct Tag(pub u8);
 impl Tag {
     pub const EMPTY: Tag = Tag(0xFF);
